@@ -76,7 +76,31 @@ func trees(tier string) []*ukit.Spec {
 			}
 		}
 	}
+	out = append(out, chainTrees()...)
 	return out
+}
+
+// chainTrees: chains of single-property objects (so that a lone value is legal shorthand all the way down) that pass
+// through two DIFFERENT objects with the same id - an inner scope's object shadowing the outer one, a same-named
+// object of another namespace, a reference that resolves inside a nested scope.
+func chainTrees() []*ukit.Spec {
+	one := func(id, prop string, t *ukit.Spec) *ukit.Spec {
+		return &ukit.Spec{Kind: ukit.KObject, ID: id, Props: []ukit.Prop{{Name: prop, Type: t}}}
+	}
+	leaf := func() *ukit.Spec { return &ukit.Spec{Kind: ukit.KInt, Min: ukit.I64(0), Max: ukit.I64(5)} }
+	scope := func(root string, objs ...*ukit.Spec) *ukit.Spec {
+		return &ukit.Spec{Kind: ukit.KScope, Root: root, Objects: objs}
+	}
+	return []*ukit.Spec{
+		// Root.a -> outer A -> (nested scope) inner A -> int
+		scope("Root", one("Root", "a", ref("A", "")), one("A", "inner", scope("A", one("A", "v", leaf())))),
+		// Root.a -> outer A -> n1's A (one property: its marker tag)
+		scope("Root", one("Root", "a", ref("A", "")), one("A", "far", ref("A", "n1"))),
+		// Root.a -> outer A -> nested scope I -> reference resolved to the inner A -> int
+		scope("Root", one("Root", "a", ref("A", "")), one("A", "in", scope("I", one("I", "x", ref("A", "")), one("A", "v", leaf())))),
+		// the same object reached twice on one chain is a real cycle and must stay rejected: Root.a -> A -> A ...
+		scope("Root", one("Root", "a", ref("A", "")), one("A", "again", ref("A", ""))),
+	}
 }
 
 // external tables applied for the foreign namespaces
@@ -195,6 +219,7 @@ func (b *built) linkState(s *ukit.Spec) (key string, diff string) {
 
 // inlineTwin replaces every reference by a copy of the object it denotes (non-recursive trees only).
 func inlineTwin(s *ukit.Spec) *ukit.Spec {
+	inlined := 0
 	var conv func(n *ukit.Spec, depth int) *ukit.Spec
 	conv = func(n *ukit.Spec, depth int) *ukit.Spec {
 		if n == nil {
@@ -204,7 +229,11 @@ func inlineTwin(s *ukit.Spec) *ukit.Spec {
 			if n.Resolved() == nil || depth > 6 {
 				return n.Clone()
 			}
-			return conv(n.Resolved(), depth+1)
+			// the copy gets an id of its own: an inlined object is a different object, and nothing may depend on its name
+			c := conv(n.Resolved(), depth+1)
+			inlined++
+			c.ID = fmt.Sprintf("%s_inlined%d", c.ID, inlined)
+			return c
 		}
 		c := *n
 		c.Item, c.Key, c.Val = conv(n.Item, depth), conv(n.Key, depth), conv(n.Val, depth)
@@ -324,6 +353,13 @@ func checkTree(spec *ukit.Spec, idx int, res *ux.Result) {
 		twinSpec := inlineTwin(s)
 		twin := ukit.BuildScope(twinSpec)
 		inputs := append(ukit.ValidValues(s, 3), ukit.RawValues(s)...)
+		for _, v := range ukit.ValidValues(s, 3) {
+			// the same inputs with one-property objects given as their lone value
+			if sh, changed := ukit.Shorthand(s, v); changed {
+				inputs = append(inputs, sh)
+			}
+		}
+		inputs = append(inputs, int64(3), "n1-A", "outer-A")
 		for _, in := range inputs {
 			res.Evaluations++
 			uo, eo := b.scope.Unserialize(ukit.DeepCopy(in))
